@@ -628,3 +628,62 @@ Theorem obj_history_free o qs :
 Proof.
   induction qs as [|q r IH]; [reflexivity|]. simpl. rewrite IH. reflexivity.
 Qed.
+
+(* ---- re-entrancy: traversals INSIDE a traversal (an item lookup that itself resolves paths, a subscriber that
+   calls back in).  Every memoised call of __call__ (split_path_info on the subpath, the virtual-root text and the
+   path) precedes the walk loop, and the loop itself touches no cache; so what a re-entrant request does to the four
+   caches is: the request's own accesses, then -- in the order of the item lookups -- whatever operations the
+   resources' __getitem__ perform.  [run_ops_st2] is [run_ops_st] that also returns the final state. *)
+Fixpoint run_ops_st2 (C : caches) (os : list hop) : list hans * caches :=
+  match os with
+  | [] => ([], C)
+  | o :: r => let '(a, C') := op_st C o in let '(rest, C'') := run_ops_st2 C' r in (a :: rest, C'')
+  end.
+
+Lemma run_ops_st2_ok : forall os C,
+  caches_ok C -> fst (run_ops_st2 C os) = map pure_op os /\ caches_ok (snd (run_ops_st2 C os)).
+Proof.
+  induction os as [|o os IH]; intros C H; [split; [reflexivity|exact H]|].
+  cbn [run_ops_st2 map]. destruct (op_st C o) as [a C'] eqn:E. destruct (op_st_ok C o H) as [A B].
+  rewrite E in A, B. cbn [fst snd] in A, B.
+  destruct (run_ops_st2 C' os) as [rest C''] eqn:E2. destruct (IH C' B) as [A2 B2]. rewrite E2 in A2, B2.
+  cbn [fst snd] in *. split; [rewrite A, A2; reflexivity|exact B2].
+Qed.
+
+(* the operations the item lookups along the consumed path perform, in walk order; [inner ob seg] = what the
+   __getitem__ of [ob] does when asked for [seg] (it is asked whether or not the key exists) *)
+Fixpoint inner_ops (inner : rnode -> text -> list hop) (ob : rnode) (segs : list text) : list hop :=
+  match segs with
+  | [] => []
+  | s :: r => if is_selector s then []
+              else if has_getitem ob
+                   then inner ob s ++ match child ob s with Some n => inner_ops inner n r | None => [] end
+                   else []
+  end.
+
+Definition reentrant_req_st (inner : rnode -> text -> list hop) (C : caches) (root : rnode) (q : request)
+  : result tdict * list hans * caches :=
+  let '(v, C1) := traverser_st C root q in
+  let segs := match call_preamble q with Ok (_, path, _, vt, _) => vt ++ split_path_info path | _ => [] end in
+  let '(ans, C2) := run_ops_st2 C1 (inner_ops inner root segs) in
+  (v, ans, C2).
+
+(* a re-entrant request answers like the cache-free traverser, every nested operation answers like its cache-free
+   function, and the caches are left valid -- so (ops_history_free) everything that follows is unaffected too *)
+Theorem reentrant_request_history_free inner C root q :
+  caches_ok C ->
+  let '(v, ans, C2) := reentrant_req_st inner C root q in
+  v = traverser_call root q /\
+  ans = map pure_op (inner_ops inner root
+          (match call_preamble q with Ok (_, path, _, vt, _) => vt ++ split_path_info path | _ => [] end)) /\
+  caches_ok C2 /\ forall later, run_ops_st C2 later = map pure_op later.
+Proof.
+  intros H. unfold reentrant_req_st.
+  destruct (traverser_st C root q) as [v C1] eqn:E. destruct (traverser_st_ok C root q H) as [A B].
+  rewrite E in A, B. cbn [fst snd] in A, B.
+  set (segs := match call_preamble q with Ok (_, path, _, vt, _) => vt ++ split_path_info path | _ => [] end).
+  destruct (run_ops_st2 C1 (inner_ops inner root segs)) as [ans C2] eqn:E2.
+  destruct (run_ops_st2_ok (inner_ops inner root segs) C1 B) as [A2 B2]. rewrite E2 in A2, B2. cbn [fst snd] in A2, B2.
+  split; [exact A|]. split; [exact A2|]. split; [exact B2|].
+  intros later. apply ops_history_free. exact B2.
+Qed.
